@@ -4,7 +4,7 @@
 From Coq Require Import List ZArith Bool.
 From Coq.Strings Require Import Byte.
 Import ListNotations.
-From SV Require Import Text G_codes C05_Model C13_Model C13_Lemmas C13_Once.
+From SV Require Import Text G_codes C05_Model C13_Model C13_Lemmas C13_Once C13_Depth.
 Local Open Scope Z_scope.
 
 (* P0 span_contains_match + frames, for every match reported by matchall: forward matches come first, then backward ones;
@@ -176,6 +176,89 @@ Print Assumptions C13_group_degap.
 Theorem C13_group_nogap : forall w t, irel (compile_word None w) t -> Forall2 (fun c x => cmatch c x = true) w t.
 Proof. exact irel_nogap. Qed.
 Print Assumptions C13_group_nogap.
+
+(* ---- depth round ---- *)
+(* ordered alternation: the word that is reported is the first word of the pattern that occurs at that column at all *)
+Theorem C13_alternation_priority : forall gap ws s n, m_alts (map (compile_word gap) ws) s = Some n ->
+  exists pre w post, ws = pre ++ w :: post /\ m_items (compile_word gap w) s = Some n /\
+    forall w' t u, In w' pre -> irel (compile_word gap w') t -> s <> t ++ u.
+Proof. exact earlier_word_does_not_occur. Qed.
+Print Assumptions C13_alternation_priority.
+
+(* finditer completeness for arbitrary word lists, contrapositive form: no word occurs at a column outside all reported spans *)
+Theorem C13_no_occurrence_between_matches : forall gap sub s p, wf_sub sub = true ->
+  (forall b e, In (b, e) (finditer (compile gap (expand_sub sub)) s 0 0) -> ~ (b <= p < e)%nat) ->
+  forall w t u, In w (words sub) -> irel (compile_word gap w) t -> skipn p s <> t ++ u.
+Proof. exact no_occurrence_between_matches. Qed.
+Print Assumptions C13_no_occurrence_between_matches.
+
+(* every reported span is a valid forward-strand span, on both strands *)
+Theorem C13_span_bounds : forall s sub rf start gap out m, 0 <= start -> matchall s sub rf start gap = Some out -> In m out ->
+  0 <= bm_b m < bm_e m /\ bm_e m <= Z.of_nat (length s).
+Proof. exact span_bounds. Qed.
+Print Assumptions C13_span_bounds.
+
+(* the start offset in forward coordinates: forward matches begin at or after start; backward matches end at or before
+   length - start and their frame counts the residues of the forward strand between the end of the span and length - start *)
+Theorem C13_start_offset_semantics : forall s sub rf start gap out m, 0 <= start -> wf_gap gap = true ->
+  matchall s sub rf start gap = Some out -> In m out ->
+  match bm_rf m with
+  | None => start <= bm_b m
+  | Some f =>
+      (0 <= f /\ start <= bm_b m) \/
+      (f < 0 /\ bm_e m <= Z.of_nat (length s) - start /\
+       - f - 1 = residues gap (slice (Z.to_nat (bm_e m)) (length s - Z.to_nat start) s) mod 3)
+  end.
+Proof. exact start_offset_semantics. Qed.
+Print Assumptions C13_start_offset_semantics.
+
+(* nothing to report *)
+Theorem C13_empty_results : forall s sub rf start gap,
+  (forall l, norm_rf rf = Some (Some l) -> has_fwd l = false -> has_bwd l = false -> matchall s sub rf start gap = Some []) /\
+  (forall out, Z.of_nat (length s) <= start -> matchall s sub rf start gap = Some out -> out = []).
+Proof. exact (fun s sub rf start gap => conj (unrequested_empty s sub rf start gap) (start_beyond_end s sub rf start gap)). Qed.
+Print Assumptions C13_empty_results.
+
+(* an rf string other than fwd/bwd/both is rejected (AssertionError) *)
+Theorem C13_invalid_rf_string : forall s sub t start gap,
+  t <> bs "fwd"%bs -> t <> bs "bwd"%bs -> t <> bs "both"%bs ->
+  matchall s sub (RStr t) start gap = None /\ match_first s sub (RStr t) start gap = None.
+Proof. exact invalid_rf_string. Qed.
+Print Assumptions C13_invalid_rf_string.
+
+(* rf forms: a collection counts only through membership (tuple = list = set); an int is a singleton; strings are fixed sets *)
+Theorem C13_rf_forms : forall s sub start gap,
+  (forall l l', (forall z, In z l <-> In z l') -> matchall s sub (RList l) start gap = matchall s sub (RList l') start gap) /\
+  (forall z, matchall s sub (RInt z) start gap = matchall s sub (RList [z]) start gap) /\
+  matchall s sub (RStr (bs "both"%bs)) start gap = matchall s sub (RList [0; 1; 2; -1; -2; -3]) start gap /\
+  matchall s sub (RStr (bs "fwd"%bs)) start gap = matchall s sub (RList [0; 1; 2]) start gap /\
+  matchall s sub (RStr (bs "bwd"%bs)) start gap = matchall s sub (RList [-1; -2; -3]) start gap.
+Proof.
+  exact (fun s sub start gap => conj (rf_membership_only s sub start gap)
+          (conj (rf_int_is_singleton s sub start gap) (rf_both_is_union s sub start gap))).
+Qed.
+Print Assumptions C13_rf_forms.
+
+(* BioBasket wrappers, element-wise *)
+Theorem C13_basket_elements : forall seqs sub rf start gap,
+  (forall out m, basket_matchall seqs sub rf start gap = Some out ->
+     (In m out <-> exists s l, In s seqs /\ matchall s sub rf start gap = Some l /\ In m l)) /\
+  (forall out, basket_match seqs sub rf start gap = Some out ->
+     Forall2 (fun s m => match_first s sub rf start gap = Some m) seqs out) /\
+  basket_matchall [] sub rf start gap = Some [] /\ basket_match [] sub rf start gap = Some [].
+Proof.
+  exact (fun seqs sub rf start gap =>
+    conj (fun out m H => basket_matchall_in seqs sub rf start gap out m H)
+      (conj (basket_match_pointwise seqs sub rf start gap) (basket_empty sub rf start gap))).
+Qed.
+Print Assumptions C13_basket_elements.
+
+Theorem C13_basket_sound : forall seqs sub rf start gap out m, 0 <= start ->
+  basket_matchall seqs sub rf start gap = Some out -> In m out ->
+  exists s rfn, In s seqs /\ norm_rf rf = Some rfn /\
+    (fwd_spec s sub rfn start gap m \/ exists l, rfn = Some l /\ bwd_spec s sub l start gap m).
+Proof. exact basket_sound. Qed.
+Print Assumptions C13_basket_sound.
 
 (* non-vacuity: the F19 witness is inside the domain and has the frames of the property text; a gapped RNA case on both strands *)
 Example C13_witness : wf_C13 [bs "CAT--AACA-T"%bs] (bs "ATG"%bs) (RStr (bs "both"%bs)) 0 (Some x2d) = true /\
